@@ -114,13 +114,13 @@ def load_known() -> dict:
 def run_witness(path: str, timeout: int = 120) -> tuple[int, str]:
     """Run a native witness script against /repo's working tree."""
     env = dict(os.environ)
-    env["PYTHONPATH"] = "/repo/src" + (":" + env["PYTHONPATH"] if env.get("PYTHONPATH") else "")
+    env["PYTHONPATH"] = os.environ.get("PYVC_REPO_SRC", "/repo/src") + (":" + env["PYTHONPATH"] if env.get("PYTHONPATH") else "")
     p = subprocess.run([sys.executable, path], capture_output=True, text=True, timeout=timeout, env=env, cwd=ROOT)
     return p.returncode, (p.stdout + p.stderr)[-2000:]
 
 
 def write_replay(prop: str, name: str, payload: dict) -> str:
-    d = os.path.join(ROOT, "replays")
+    d = os.path.join(os.environ.get("VERIF_OUT", ROOT), "replays")
     os.makedirs(d, exist_ok=True)
     safe = hashlib.sha1(name.encode()).hexdigest()[:10]
     path = os.path.join(d, f"{prop}-{safe}.json")
@@ -256,8 +256,9 @@ def check_property(prop: str, tier: str, seed: int) -> int:
             cov["samples"] = rt_report["samples"][:10] + cov["samples"][:10]
     ev = {"property_id": prop, "tier": tier, "seed": seed, "level": level, "coverage": cov,
           "assumptions": spec.get("assumptions", []), "wall_s": round(time.time() - t0, 2), "violations": len(final_violations)}
-    os.makedirs(os.path.join(ROOT, "evidence"), exist_ok=True)
-    json.dump(ev, open(os.path.join(ROOT, "evidence", f"{prop}.json"), "w"), indent=1, default=str)
+    out_root = os.environ.get("VERIF_OUT", ROOT)
+    os.makedirs(os.path.join(out_root, "evidence"), exist_ok=True)
+    json.dump(ev, open(os.path.join(out_root, "evidence", f"{prop}.json"), "w"), indent=1, default=str)
 
     for l in kf_lines:
         print(l)
